@@ -78,6 +78,7 @@ const (
 type env struct {
 	f         *srvfix.Fixture
 	routes    []router.VerifRouteInfo
+	weighted  []router.VerifRouteInfo
 	adminTok  string
 	userTok   string
 	revoked   string // a token whose id is on the blacklist
@@ -596,6 +597,7 @@ func TestC40(t *testing.T) {
 			"route = any of the real table (plus unknown paths and wrong methods); path variables = existing names or odd values (empty, 5000 chars, unicode, %00, quotes, .., SQL fragments); " +
 			"query = declared parameters with right/wrong-typed/empty/huge/duplicated values, undeclared ones, malformed pairs; headers = Accept / Accept-Language / Content-Type / Range / Accept-Encoding / cluster-token variants; " +
 			"credentials = admin, non-admin, none, revoked token, Basic (right, wrong), 12 malformed Authorization values; body = the route's documented payload with one mutation (field dropped / retyped / null / nested 1500 deep / huge number / unknown field / duplicate key), another route's payload, a JSON value of the wrong shape, invalid JSON, empty, 1 MB, Ego programs for the code routes. " +
+			"Before the random search an enumerated first-order sweep runs (shard 0, ~2 600 cases): every route plain / with a missing DSN / with each declared parameter alone (empty, good, two ill-typed values) / each path variable with 8 odd values / every documented payload / every leaf of every documented payload emptied or nulled / 10 wrong-shape bodies / without credentials, as non-admin, with the revoked token. " +
 			"Non-trivial: the request passed the gate and entered a handler (probe installed with VerifWrapHandlers); distinct by route x classes x content hash.",
 		Assumptions: []string{
 			"a handler panic propagates to the caller of ServeHTTP because ego.server.panic.recovery=false (restored after every request)",
@@ -608,7 +610,7 @@ func TestC40(t *testing.T) {
 		Fixed:    fixedCases,
 		Extra:    extra,
 		Quick:    750,
-		Thorough: 12000,
+		Thorough: 6000,
 	})
 }
 
